@@ -9,7 +9,7 @@ FIX_COMMITS = ['c5b9684 (C05 DataReader EOD==0)', 'c3bb002 (C17 ESC prefix on 1x
                '6d62944 (C02 edges results[0])', '476db38 (C02 ProxyQueue per-recipient failures)',
                '044506a + a782ee8 (C11 pipe relays)', '6c9af79 (C11/C17 invalid reply code)', '511778e (C11 mixed-class rejected recipients)',
                '19de51f (C11 HttpRelay never sets a result)', '1cf38fb + ecb2777 (C08 STARTTLS injection, server and client)',
-               '81dab84 (C08 AUTH without argument)']
+               '81dab84 (C08 AUTH without argument)', '3808adf (C06 quoted-pairs in paths)', '5259bd2 (C06 HttpRelay connection reuse)']
 
 ENGINES = [
     {'name': 'runner', 'path': 'vf/runner.py', 'serves_properties': [],
@@ -29,6 +29,8 @@ ENGINES = [
      'kind_free_text': 'StagePeer: in-memory reactive SMTP/LMTP server answering each protocol stage per script and recording what it accepted; HTTP peer and resolver stub in vf/props/c11_http.py'},
     {'name': 'tls-socketpair', 'path': 'vf/props/c08.py', 'serves_properties': ['C08'],
      'kind_free_text': 'real slimta Server / SmtpEdge / Client over gevent socketpairs with real TLS (committed self-signed certificate), harness-side lock-step wire reader'},
+    {'name': 'relay-to-edge-hop', 'path': 'vf/props/c06.py', 'serves_properties': ['C06'],
+     'kind_free_text': 'StaticSmtpRelay -> SmtpEdge.handle over gevent socketpairs (Server subclass with generated extension set), HttpRelay -> WsgiEdge under gevent WSGIServer on loopback'},
     {'name': 'reactive-peer', 'path': 'vf/props/c10.py', 'serves_properties': ['C10'],
      'kind_free_text': 'in-memory downstream that parses what the client sends and only then makes the scripted replies readable; a read when nothing is owed raises'},
     {'name': 'scripted-socket', 'path': 'vf/transport.py', 'serves_properties': ['C05', 'C17'],
@@ -201,6 +203,17 @@ CHECKS['C08'] = {
             'callback, malformed lines give 5xx and the session goes on, authed iff the application left 235, credentials seen = credentials sent',
     'design_ref': 'DESIGN.md section 2 C08',
     'note': 'known finding: PLAIN/LOGIN accepted without TLS (pysasl 1.x has no insecure attribute; pinned test test_auth forbids the repair); 3 s lock-step guard per reply',
+}
+CHECKS['C06'] = {
+    'engine': 'relay-to-edge-hop',
+    'level': 'exploration',
+    'technique': 'round-trip property-based testing: real relay client -> real library edge over socketpair / loopback, envelope and reply compared end to end',
+    'text': 'generated envelopes (null, dot-atom, quoted local parts with quoted-pairs, UTF-8 addresses, C20 header blocks, arbitrary bodies) are sent by '
+            'StaticSmtpRelay to SmtpEdge (generated extension sets, STARTTLS with real TLS, HELO fallback, rejected RCPTs, queue verdicts, connection reuse), by '
+            'HttpRelay to WsgiEdge under gevent WSGIServer, and by StaticLmtpRelay to a reference sink: sender, accepted recipients in order, header block and body '
+            'must arrive byte-identical (modulo final CRLF) and the relay result must be the reply the edge gave; Client.ehlo() must see exactly the advertised extensions',
+    'design_ref': 'DESIGN.md section 2 C06',
+    'note': 'UTF-8 addresses only with SMTPUTF8; 8-bit bodies to 7-bit servers are expected to fail with 5.6.3; LMTP leg ends in a harness sink',
 }
 
 NOT_APPLICABLE = {}
